@@ -122,6 +122,12 @@ func (msg MsgTransferNFT) ValidateBasic() error {
 	if len(msg.Data) != 0 && Modified(msg.Data) && !gjson.Valid(msg.Data) {
 		return errormod.Wrap(sdkerrors.ErrJSONUnmarshal, "invalid data, must be a JSON string or empty")
 	}
+
+	// a transfer may rewrite the uri: the limit of mint and edit (and of genesis
+	// validation) applies to it as well
+	if err := ValidateTokenURI(msg.URI); err != nil {
+		return err
+	}
 	return ValidateTokenID(msg.Id)
 }
 
